@@ -380,7 +380,7 @@ type c08Seed struct {
 func TestVerifC08(t *testing.T) {
 	r := vkit.Start(t, "C08", "json-structural-mutations", 240*time.Second, 1500*time.Second)
 	defer r.Finish()
-	r.Rule = "seed proof lists (ProofD plain / non-revocation / range 4sq / range 3sq+4sq on two attributes, ProofU plain / random-blind, mixed lists of 2-3) as JSON; EVERY node x {delete, null, \"\", \"AQ==\", 0, {}, [], \"-1\", -1, duplicate key, re-key integer keys to -1/0/len(R)/2^31/overflow/non-numeric/colliding, swap with each sibling, array truncate at every length / extend / swap, unknown key added} + moves/copies of optional sub-proofs between proofs; thorough: all pairs of structural mutations on the first seeds; each decodable mutant goes to ProofList.Verify (keys as in the seed and padded), ProofD.Verify / ProofU.Verify; also decoded as IssueCommitmentMessage; non-trivial = distinct mutant document; oracle: no panic, and accepted only if the decoded list equals the seed by value"
+	r.Rule = "seed proof lists (ProofD plain / non-revocation / range 4sq / range 3sq+4sq on two attributes, ProofU plain / random-blind, mixed lists of 2-3 in both orders of the two proof kinds) as JSON; EVERY node x {delete, null, \"\", \"AQ==\", 0, {}, [], \"-1\", -1, duplicate key, re-key integer keys to -1/0/len(R)/2^31/overflow/non-numeric/colliding, swap with each sibling, array truncate at every length / extend / swap, unknown key added} + moves/copies of optional sub-proofs between proofs; thorough: all pairs of structural mutations on the first seeds; each decodable mutant goes to ProofList.Verify (keys as in the seed and padded), ProofD.Verify / ProofU.Verify; also decoded as IssueCommitmentMessage; non-trivial = distinct mutant document; oracle: no panic, and accepted only if the decoded list equals the seed by value and every element decoded on its own gives the same value as in the list"
 	vfInstallEnv(t, "C08", r.Seed)
 	table := rangeproof.GenerateSquaresTable(256)
 	secrets := []*big.Int{vfTag("c08-secret")}
@@ -392,6 +392,10 @@ func TestVerifC08(t *testing.T) {
 		{"U+blind", []vsSpec{{vsIssueBlind, "toyA", 0, nil}}, false},
 		{"D,U+blind", []vsSpec{{vsDisc, "toyA", 0, []int{1, 3}}, {vsIssueBlind, "toyB", 0, nil}}, false},
 		{"D+nonrev,D+range4,U", []vsSpec{{vsDiscNonrev, "toyB", 0, []int{2}}, {vsDiscRange, "toyA", 0, []int{3}}, {vsIssue, "toyA", 0, nil}}, false},
+		// issuance commitments BEFORE disclosure proofs (a decoder that tells the two kinds apart by trying
+		// one after the other meets them in the other order)
+		{"U,D", []vsSpec{{vsIssue, "toyA", 0, nil}, {vsDisc, "toyA", 0, []int{2}}}, false},
+		{"U+blind,D,U", []vsSpec{{vsIssueBlind, "toyB", 0, nil}, {vsDisc, "toyA", 0, []int{1}}, {vsIssue, "toyA", 0, nil}}, false},
 	}
 	type built struct {
 		name string
@@ -466,6 +470,20 @@ func TestVerifC08(t *testing.T) {
 			return
 		}
 		same := c08Canon(l) == seedCanon
+		if same {
+			// ... and the list must say so itself: every element decoded on its own (as a one-element list)
+			// must give the value the list decode gave - a decoder that carries values from one element to the
+			// next makes a document look like the seed although it lacks what the seed has
+			var elems []json.RawMessage
+			if json.Unmarshal([]byte(doc), &elems) == nil && len(elems) == len(l) {
+				for i, e := range elems {
+					var one ProofList
+					if json.Unmarshal([]byte("["+string(e)+"]"), &one) != nil || len(one) != 1 || c08Canon(one) != c08Canon(ProofList{l[i]}) {
+						same = false
+					}
+				}
+			}
+		}
 		verify := func(entry string, f func() bool) {
 			var ok bool
 			if pan, msg := vkit.Guard(func() { ok = f() }); pan {
